@@ -1609,13 +1609,19 @@ def patched(rt):
         jug.task.alltasks[:] = old_alltasks
 
 
+def _result_path(jugdir, key):
+    """documented file-store layout: <jugdir>/<first two characters of the hash>/<rest>"""
+    k = key.decode('ascii') if isinstance(key, bytes) else str(key)
+    return os.path.join(jugdir, k[:2], k[2:])
+
+
 def observe_store(rt):
     """store content and lock table as a new process sees them (real store, no proxy)"""
     st = rt.backend.open()
     final = []
     for h in rt.master.hashes:
         present = bool(st.can_load(h))
-        if not present and rt.backend.dir is not None and os.path.exists(st._getfname(h)):
+        if not present and rt.backend.dir is not None and os.path.exists(_result_path(rt.backend.dir, h)):
             present = True                      # look at the backend directly, not only through can_load
         if present:
             try:
